@@ -90,6 +90,7 @@ type FState struct {
 	names  map[string]Binding
 	defers []deferred
 	cut    map[*ssa.BasicBlock]bool
+	mark   map[*ssa.BasicBlock]int // len(st.sites) when the loop head was cut
 }
 
 type deferred struct {
@@ -431,12 +432,39 @@ func (ex *Exec) buildUnitOrds(fn *ssa.Function) {
 	walk = func(fn *ssa.Function, chain string, depth int, stack []*ssa.Function) {
 		for _, b := range fn.Blocks {
 			for _, in := range b.Instrs {
+				switch sx := in.(type) {
+				case *ssa.MapUpdate:
+					ex.unitCnt["mapupdate"]++
+					key := chain + fmt.Sprintf("%p", sx)
+					ex.unitOrd[key] = ex.unitCnt["mapupdate"]
+					ex.unitSeq = append(ex.unitSeq, unitCall{key: key, name: "mapupdate"})
+				case *ssa.Send:
+					ex.unitCnt["chansend"]++
+					key := chain + fmt.Sprintf("%p", sx)
+					ex.unitOrd[key] = ex.unitCnt["chansend"]
+					ex.unitSeq = append(ex.unitSeq, unitCall{key: key, name: "chansend"})
+				case *ssa.Select:
+					for k, ss := range sx.States {
+						if ss.Dir == types.SendOnly {
+							ex.unitCnt["chansend"]++
+							key := chain + fmt.Sprintf("%p#%d", sx, k)
+							ex.unitOrd[key] = ex.unitCnt["chansend"]
+							ex.unitSeq = append(ex.unitSeq, unitCall{key: key, name: "chansend"})
+						}
+					}
+				}
 				x, ok := in.(*ssa.Call)
 				if !ok {
 					continue
 				}
 				c := x.Common()
-				if _, isB := c.Value.(*ssa.Builtin); isB {
+				if bi, isB := c.Value.(*ssa.Builtin); isB {
+					if bi.Name() == "close" {
+						ex.unitCnt["chanclose"]++
+						key := chain + fmt.Sprintf("%p", x)
+						ex.unitOrd[key] = ex.unitCnt["chanclose"]
+						ex.unitSeq = append(ex.unitSeq, unitCall{key: key, name: "chanclose"})
+					}
 					continue
 				}
 				name := ex.prog.calleeName(c)
@@ -817,6 +845,23 @@ func (ex *Exec) enterBlock(f *Frame, st *State, b, prev *ssa.BasicBlock) bool {
 		bindPhis(vals)
 		checkAuto("preserved")
 		checkInv("preserved")
+		if f.con != nil {
+			// everyiter: this completed iteration passed a site of each listed callee
+			for _, pat := range f.con.EveryIter[ld.ord] {
+				seen := false
+				for _, sname := range st.sites[min(fs.mark[b], len(st.sites)):] {
+					if calleeMatches(pat, sname) {
+						seen = true
+					}
+				}
+				goal := "true"
+				if !seen {
+					goal = "false"
+				}
+				ex.oblige(f, st, "assert", fmt.Sprintf("%s%s#everyiter:loop%d:%s", ex.name, f.prefix, ld.ord, pat), goal, b.Instrs[0].Pos(),
+					fmt.Sprintf("every completed iteration of loop#%d passes a site of %s (no path around it back to the loop head)", ld.ord, pat))
+			}
+		}
 		for i, phi := range phis {
 			f.regs[phi] = saved[i]
 		}
@@ -828,6 +873,10 @@ func (ex *Exec) enterBlock(f *Frame, st *State, b, prev *ssa.BasicBlock) bool {
 	checkAuto("entry")
 	checkInv("entry")
 	fs.cut[b] = true
+	if fs.mark == nil {
+		fs.mark = map[*ssa.BasicBlock]int{}
+	}
+	fs.mark[b] = len(st.sites)
 	st.mapEpoch++
 	// havoc loop-carried registers
 	fresh := make([]Val, len(phis))
@@ -1012,6 +1061,10 @@ func (ex *Exec) step(f *Frame, st *State, in ssa.Instruction) bool {
 	switch x := in.(type) {
 	case *ssa.DebugRef:
 		if id, ok := x.Expr.(*ast.Ident); ok && id.Name != "_" {
+			if fv, isVar := x.Object().(*types.Var); isVar && fv.IsField() {
+				// the selector of x.f: a field name, not a variable of the function
+				break
+			}
 			fs := st.fstate(f)
 			v := ex.val(f, st, x.X)
 			if x.IsAddr {
@@ -1180,6 +1233,12 @@ func (ex *Exec) step(f *Frame, st *State, in ssa.Instruction) bool {
 		// update starts a new epoch in which the written key has the written
 		// value; nothing is retained about the other keys.
 		st.mapEpoch++
+		st.sites = append(st.sites, "mapupdate")
+		ex.callAsserts(f, st, x, "mapupdate", 0, map[string]Binding{
+			"arg0": {V: ex.val(f, st, x.Map), T: x.Map.Type()},
+			"arg1": {V: ex.val(f, st, x.Key), T: x.Key.Type()},
+			"arg2": {V: ex.val(f, st, x.Value), T: x.Value.Type()},
+		}, "")
 		if mt, ok := under(x.Map.Type()).(*types.Map); ok {
 			mu, ku := w.fold(st, ex.val(f, st, x.Map)), w.fold(st, ex.val(f, st, x.Key))
 			ep := bvLit(uint64(st.mapEpoch), 64)
@@ -1221,10 +1280,29 @@ func (ex *Exec) step(f *Frame, st *State, in ssa.Instruction) bool {
 					lo = -1
 				}
 				st.assume(mkAnd(app("bvsle", bvLitI(lo, iv.W), iv.T), app("bvslt", iv.T, bvLitI(int64(len(x.States)), iv.W))))
+				// a send case that fires is a "chansend" site (guarded by its index)
+				for k, ss := range x.States {
+					if ss.Dir != types.SendOnly {
+						continue
+					}
+					pbs := map[string]Binding{
+						"arg0": {V: ex.val(f, st, ss.Chan), T: ss.Chan.Type()},
+						"arg1": {V: ex.val(f, st, ss.Send), T: ss.Send.Type()},
+					}
+					ex.callAssertsAt(f, st, x, fmt.Sprintf("%p#%d", x, k), "chansend", 0, pbs, mkEq(iv.T, bvLitI(int64(k), iv.W)))
+				}
 			}
 		}
 	case *ssa.Send:
+		// the send itself (blocking, hand-off) is outside the subset; what is sent
+		// on which channel can be pinned by callassert/callsites on "chansend"
 		w.note("channel send (outside the subset)")
+		pbs := map[string]Binding{
+			"arg0": {V: ex.val(f, st, x.Chan), T: x.Chan.Type()},
+			"arg1": {V: ex.val(f, st, x.X), T: x.X.Type()},
+		}
+		st.sites = append(st.sites, "chansend")
+		ex.callAsserts(f, st, x, "chansend", 0, pbs, "")
 	case *ssa.Go:
 		w.note("go statement (outside the subset)")
 		st.mapEpoch++
